@@ -374,8 +374,30 @@ def check_vbox_pvs(rep, pid):
     record(rep, pid, "pvs:PVS.disks/system_name_of_every_hdd", not why, "; ".join(sorted(set(why))), node.lineno)
 
 
+def check_vmx_not_memoised(rep, pid):
+    """VMX.attr is mutable -- unlock_with_phrase() merges the decrypted dictionary into it -- so disks() has to be computed from the
+    current attr on every call: no caching decorator on it, no wrapper stored over it (self.disks = lru_cache(...)(self.disks)), and the
+    function reads self.attr itself."""
+    name = "vmx:VMX.disks/recomputed_from_the_current_attr_on_every_call"
+    import os
+
+    tree = ast.parse(open(os.path.join(rep.repo, VMXF)).read())
+    cls = next(n for n in tree.body if isinstance(n, ast.ClassDef) and n.name == "VMX")
+    fn = next(n for n in cls.body if isinstance(n, ast.FunctionDef) and n.name == "disks")
+    why = []
+    for d in fn.decorator_list:
+        if ast.unparse(d).split("(")[0].split(".")[-1] in ("lru_cache", "cache", "cached_property", "memoize"):
+            why.append(f"disks is decorated with @{ast.unparse(d)[:40]}")
+    for n in ast.walk(cls):
+        if isinstance(n, (ast.Assign, ast.AnnAssign)) and any(ast.unparse(t) == "self.disks" for t in (n.targets if isinstance(n, ast.Assign) else [n.target])):
+            why.append(f"`{ast.unparse(n)[:70]}` replaces the method by a wrapper")
+    if not any(isinstance(x, ast.Attribute) and x.attr == "attr" and isinstance(x.value, ast.Name) and x.value.id == "self" for x in ast.walk(fn)):
+        why.append("disks() does not read self.attr")
+    record(rep, pid, name, not why, "; ".join(why), fn.lineno)
+
+
 def extra_checks(rep, pid, ledger, known):
-    for fn in (check_parse_dictionary, check_vmx_disks, check_constants, check_ovf, check_vbox_pvs):
+    for fn in (check_parse_dictionary, check_vmx_disks, check_vmx_not_memoised, check_constants, check_ovf, check_vbox_pvs):
         try:
             fn(rep, pid)
         except (Unsupported, StopIteration) as e:
